@@ -517,6 +517,48 @@ def pred_C06(model, params, run):
                                 and can_add_worker(model, al, t, w):
                             out.append(viol("C06", "worker %d left FREE although task %d could take it" % (w, t), time=al["time"]))
                             return out
+    # pair form for facility tasks of single-task components: an unplaced ready component that some
+    # candidate workplace would accept, with a free eligible (worker, facility) pair there, must not wait
+    for it in steps(run):
+        if "allocated" not in it or it["allocated"]["time"] in absn:
+            continue
+        al = it["allocated"]
+        for t, tk in enumerate(model["tasks"]):
+            c = tk["comp"]
+            if not tk["needFac"] or tk["isAuto"] or c is None or model["comps"][c]["tasks"] != [t]:
+                continue
+            if al["tstate"][t] not in (READY, WORKING) or al["allocW"][t]:
+                continue
+            where = [al["placed"][c]] if al["placed"][c] is not None else []
+            # an unplaced component is only judged when nothing moved in this pass (then the space seen at
+            # the task's turn is the space seen now; a component that another task moves later in the same
+            # pass can free a workplace only after this task's turn — that wait is inherent in a one-pass loop)
+            nothing_moved = "absence" in it and it["absence"]["placed"] == al["placed"]
+            if not where and al["tstate"][t] == READY and nothing_moved:
+                for q in tk["wps"]:
+                    if q >= model["nWp"]:
+                        continue
+                    wq = model["wps"][q]
+                    used = sum((F(model["comps"][x]["size"]) for x in al["wpComps"][q]), Fr(0))
+                    skill = sum((F(lookup(model["facs"][f]["skills"], tk["name"])) for f in wq["facs"]
+                                 if has_skill(model["facs"][f]["skills"], tk["name"])), Fr(0))
+                    if F(wq["cap"]) - used >= F(model["comps"][c]["size"]) and skill > 0:
+                        where.append(q)   # unplaced components may enter any such workplace (conveyor rule: from nowhere)
+            for q in where:
+                for f in model["wps"][q]["facs"]:
+                    fs = model["facs"][f]
+                    if al["fstate"][f] != FREE or al["fasg"][f] or not has_skill(fs["skills"], tk["name"]) or t not in model["wps"][fs["wp"]]["targets"]:
+                        continue
+                    if tk["fixF"] is not None and f not in tk["fixF"]:
+                        continue
+                    for w, ws in enumerate(model["workers"]):
+                        if al["wstate"][w] != FREE or al["wasg"][w]:
+                            continue
+                        if has_skill(ws["skills"], tk["name"]) and t in model["teams"][ws["team"]]["targets"] and \
+                                has_skill(ws["facSkills"], fs["name"]) and (tk["fixW"] is None or w in tk["fixW"]):
+                            out.append(viol("C06", "worker %d and facility %d left FREE although task %d (single task of component %d) could take the pair at workplace %d" % (w, f, t, c, q),
+                                            time=al["time"]))
+                            return out
     return out
 
 
@@ -647,6 +689,10 @@ def pred_C10(model, params, run):
                 if tk["isAuto"] and params["autoFlag"] and st["tstate"][t] == WORKING and it["costed"]["tstate"][t] == WORKING:
                     if F(pre["rem"][t]) - F(st["rem"][t]) != F(tk["autoRate"]):
                         out.append(viol("C10", "automatic task %d did not progress at absence step %d although the flag is set" % (t, k)))
+                        return out
+                if tk["isAuto"] and tk["comp"] is None and params["autoFlag"] and pre["tstate"][t] == READY:
+                    if F(pre["rem"][t]) - F(st["rem"][t]) != F(tk["autoRate"]):
+                        out.append(viol("C10", "READY automatic task %d did not start and progress at absence step %d although the flag is set" % (t, k)))
                         return out
                 if len(st["allocW"][t]) > len(pre["allocW"][t]) or len(st["allocF"][t]) > len(pre["allocF"][t]):
                     out.append(viol("C10", "task %d got a resource at project absence step %d" % (t, k)))
